@@ -34,6 +34,7 @@ func init() {
 
 func runC14(w *World, r *Report) {
 	hrCfgManagedProtocol(w, r, "R8")
+	hrWildcardConstant(w, r, "R2")
 	hrLookupDeclaredWalksEveryPart(w, r, "R3")
 	// what the engine matches must be what was registered: the engine-side matchers of C03 (flows) and C13 (policies)
 	r.Borrow(w, runC03, map[string]string{"R4": "R3", "R6": "R3", "R7": "R3", "R8": "R3"})
